@@ -94,6 +94,7 @@ func init() {
 			ruleLockField(c, "server", c.M.SCh, c.M.SErr, c.M.SInq)
 			ruleRunGuardServer(c)
 			ruleReaderExitStops(c, "server")
+			ruleStoppedReaderExits(c, "server")
 			c.Clause("C08-D3")
 			gos := ruleGo(c, serverGo(c), 5, "Start×2, serve, dispatch closure, pushReq")
 			ruleLifetimeWaited(c, gos, chk.PathOfVar(c.M.Server, c.M.SWg).String(), 3, "server")
